@@ -208,37 +208,12 @@ def rule_chunk(run):
 # ---------------------------------------------------------------------------
 # FMAP
 
-def _find_destructure(fi, kind):
-    """(assign stmt, enclosing block) for `targets = F.parse_string(line, kind)` / `= F.read_values(kind)`"""
-    for blk in _blocks(fi.node):
-        for st in blk:
-            if isinstance(st, ast.Assign) and isinstance(st.value, ast.Call) and call_name(st.value) in ('parse_string', 'read_values'):
-                c = st.value
-                k = c.args[1] if call_name(c) == 'parse_string' else c.args[0]
-                if const_str(k) == kind: return st, blk
-    return None, None
-
-
-def _blocks(fnode):
-    out = []
-    for n in ast.walk(fnode):
-        for f in ('body', 'orelse', 'finalbody'):
-            b = getattr(n, f, None)
-            if isinstance(b, list) and b and isinstance(b[0], ast.stmt): out.append(b)
-    return out
+from ..fmap import find_destructure as _find_destructure, _blocks, reader_map
 
 
 def reader_field_map(prog, fi, kind, clsname, nfields, unit_names=('self.unit_scale',)):
-    st, blk = _find_destructure(fi, kind)
-    if st is None: raise AnalysisError('%s: no destructuring of record %s' % (fi.short, kind))
-    ev = ReaderEval(prog, fi, unit_names)
-    ev.bind_fields(st.targets[0], nfields)
-    for s in blk[blk.index(st) + 1:]:
-        ctor = [c for c in ast.walk(s) if isinstance(c, ast.Call) and isinstance(c.func, ast.Name) and c.func.id == clsname]
-        if ctor:
-            return reader_ctor_map(prog, ev, ctor[0], clsname), st
-        ev.assign(s)
-    raise AnalysisError('%s: no %s(...) construction after reading record %s' % (fi.short, clsname, kind))
+    m, st, consumed = reader_map(prog, fi, kind, clsname, nfields, unit_names)
+    return m, st
 
 
 def writer_field_syms(prog, fi, kind, nfields, unit_names=('self.unit_scale',), which=0):
